@@ -14,6 +14,8 @@ from .refmodel import freeze, ref_dtype
 
 S = load()
 
+HASH_TWINS = {-1: -2, -2: -1, 0: 2 ** 61 - 1, 2 ** 61 - 1: 0}
+
 KEY_ALPHABETS = {
     "int": [0, 1, 2, 3, -1, 2 ** 40],
     "str": ["a", "b", "A", "", "ab", "é"],
@@ -108,6 +110,8 @@ def side(draw, n, keys, tag):
             name = f"{base}{i}"
         used.add(name)
         pos = draw(st.integers(0, len(cols)))
+        if f == "own" and draw(st.integers(0, 3)) == 0:
+            name = None               # an unnamed key column, given as the table's own column vector
         cols.insert(pos, (name, list(kv)))
         specs = [(s[0], s[1] + 1) if s[0] == "own" and s[1] >= pos else s for s in specs]
         specs.append(("name", name) if f == "name" else ("own", pos))
@@ -199,9 +203,13 @@ def group_case(draw, tier="quick"):
     nk = draw(st.sampled_from([1, 1, 2, 2, 3]))
     keys = []
     for _ in range(nk):
-        kind = draw(st.sampled_from(["int", "str", "bool", "date", "none"]))
+        kind = draw(st.sampled_from(["int", "str", "bool", "date", "none", "tie", "twin"]))
         if kind == "none":
             alpha = [None]
+        elif kind == "tie":
+            alpha = draw(st.lists(st.sampled_from([1, 1.0, True, 0, 0.0, False, 2]), min_size=2, max_size=4, unique_by=lambda v: (type(v), v)))
+        elif kind == "twin":
+            alpha = draw(st.lists(st.sampled_from([-1, -2, 0, 2 ** 61 - 1, 5]), min_size=2, max_size=4, unique=True))
         else:
             size = draw(st.integers(1, min(3, len(KEY_ALPHABETS[kind]))))
             alpha = draw(st.lists(st.sampled_from(KEY_ALPHABETS[kind]), min_size=size, max_size=size, unique=True))
@@ -286,6 +294,30 @@ def realise_group(case):
             vspecs.append(cols[vpos[j]][0])
     key_tuples = [tuple(k["values"][i] for k in case["keys"]) for i in range(n)]
     return t, over, vspecs, key_tuples
+
+
+def twin_edit(case, t, over):
+    """Edit one int key cell to the value hash() cannot tell from it (-1 <-> -2, 0 <-> 2^61-1): in place for stored keys,
+    a new vector for external keys.  -> (over2, key_tuples2) or None when no key cell qualifies"""
+    for c, k in enumerate(case["keys"]):
+        for i, x in enumerate(k["values"]):
+            if type(x) is int and x in HASH_TWINS:
+                new = HASH_TWINS[x]
+                vals2 = list(k["values"])
+                vals2[i] = new
+                over2 = list(over)
+                try:
+                    if k["form"] == "ext":
+                        over2[c] = S.Vector(vals2, name=over[c].name)
+                    else:
+                        col = over[c] if not isinstance(over[c], str) else t[over[c]]
+                        col[i] = new
+                except Exception:  # noqa: BLE001
+                    return None
+                keys2 = [kk["values"] if j != c else vals2 for j, kk in enumerate(case["keys"])]
+                n = case["n"]
+                return over2, [tuple(kv[r] for kv in keys2) for r in range(n)]
+    return None
 
 
 def group_call_args(case, over, vspecs, recorder=None):
